@@ -272,6 +272,22 @@ Proof.
 Qed.
 Print Assumptions C02_sq_positive_g_flipped.
 
+(* independent of how QUAD is read: the same surface written as SQ with G > 0
+   and as GQ with the expanded coefficients (identical polynomials, hence
+   identical MCNP sense) is converted into opposite regions *)
+Theorem C02_sq_gq_inconsistent : forall A B C D E F G x0 y0 z0 : R,
+  0 < G ->
+  exists K,
+    (forall p, fM_gq RS A B C 0 0 0 (2 * D - 2 * A * x0) (2 * E - 2 * B * y0) (2 * F - 2 * C * z0) K p
+               = fM_sq RS A B C D E F G x0 y0 z0 p) /\
+    exists csq cgq,
+      convert_card RS M_SQ [A; B; C; D; E; F; G; x0; y0; z0] = Ok csq /\
+      convert_card RS M_GQ [A; B; C; 0; 0; 0; 2 * D - 2 * A * x0; 2 * E - 2 * B * y0;
+                            2 * F - 2 * C * z0; K] = Ok cgq /\
+      forall p, (neg_coll csq p <-> pos_coll cgq p) /\ (pos_coll csq p <-> neg_coll cgq p).
+Proof. exact sq_gq_inconsistent. Qed.
+Print Assumptions C02_sq_gq_inconsistent.
+
 (* witness: SQ -1 -1 -1 0 0 0 1 0 0 0 (the unit sphere written with G = +1):
    the origin has positive MCNP sense and lies in the region selected by -s *)
 Theorem C02_sq_positive_g_refuted :
